@@ -33,3 +33,18 @@ Proof.
     exists fn. rewrite Hr in E. destruct (run_nat RtoL fn pr) as [o e|f o| | |]; cbn in E; try discriminate.
     destruct f; cbn in E; inversion E; subst; reflexivity.
 Qed.
+
+(* an index out of range: both engines stop at the access with the same output (VM: bounds error; native: the
+   runtime's assertion fails and the process aborts) *)
+Theorem backends_agree_oob pr M fuel out :
+  compile_program pr = Some M -> small_program pr -> fuel_small fuel -> depth_ok M ->
+  se_program pr = true -> cc_refuses pr = false -> (forall fuel', run_nat RtoL fuel' pr <> NStuckO) ->
+  run_ref fuel pr = Faulted FOob out ->
+  (exists fv, run_vm fv M = VError EOob out) /\ (exists fn, run_nat RtoL fn pr = NFaulted NFOob out).
+Proof.
+  intros Hc Hs Hf Hd Hse Hcc Hst Hr. split.
+  - eapply vm_correct_oob_depth_ok; eassumption.
+  - destruct (native_rtol_reaches_ref_nostuck pr fuel Hse Hcc) as [fn E]; try (rewrite Hr; discriminate); [exact Hst|].
+    exists fn. rewrite Hr in E. destruct (run_nat RtoL fn pr) as [o e|f o| | |]; cbn in E; try discriminate.
+    destruct f; cbn in E; inversion E; subst; reflexivity.
+Qed.
